@@ -190,9 +190,15 @@ type epochInfo struct {
 	prefixes []string // nil: everything was havocked
 }
 
+// matchPrefix: name starts with one of the prefixes and with none of the exclusions (entries written "-prefix").
 func matchPrefix(name string, prefixes []string) bool {
 	for _, p := range prefixes {
-		if strings.HasPrefix(name, p) {
+		if strings.HasPrefix(p, "-") && strings.HasPrefix(name, p[1:]) {
+			return false
+		}
+	}
+	for _, p := range prefixes {
+		if !strings.HasPrefix(p, "-") && strings.HasPrefix(name, p) {
 			return true
 		}
 	}
